@@ -27,6 +27,9 @@ def run(prog, R):
     fields = [f["name"] for f in prog.adts[CUR]["variants"][0]["fields"]]
     for f in prog.adts[CUR]["variants"][0]["fields"]:
         R.ob("C14.1-private-state", "Cursor." + f["name"], f["vis"] not in ("pub", "crate"), "", f"visibility {f['vis']}")
+    R.premises(prog, "C14.0-lexer-termination-premise", ["c01_lexer:C01.1-"], "a finite token stream: every lexer loop consumes on every cycle and leaves at end of input (the lexer half of C01, evaluated without the grammar interpreter)")
+    import C02
+    C02.text_identity(prog, R, "C14.0-text-identity")      # the tokens partition *the input*: nothing is cut off before the cursor is created
     # ---- C14.1 who may mutate chars / len_remaining
     n = 0
     for s in field_sites(prog, CUR, "chars"):
